@@ -6,9 +6,14 @@ loop against): in every reachable state `poller.pending` equals the number of re
 read / write / accept and per armed timer) plus the posted handlers not yet run (queued or currently running);
 hence `Pending()` is exact whenever no handler executes, `RunPending`'s loop condition is false exactly when
 nothing is in flight, and a poll that dispatched a handler reports a positive count, never a timeout.
+
+Tie T: `Sonic.Props.C03Poller` (imported here, theorems `C03_poller_*`) proves that the model's helpers `setRead / setWrite /
+delRead / delWrite / closeObj / armTimer / unsetPending` do to `(evR, evW, pending)` exactly what the functions regenerated
+from `internal/poll_linux.go` (`Sonic.Gen.Poller`) do, for every slot state and every outcome of the system calls.
 -/
 import Sonic.Lemmas.LoopAcct
 import Sonic.Props.Ledger
+import Sonic.Props.C03Poller
 
 namespace Sonic.Props.C03
 open Sonic.Model.Loop
